@@ -93,7 +93,10 @@ def compute_contact_force(
     X = np.vstack((tetrahedron.T, np.ones((1, 4))))
     com = np.empty(4, dtype=np.dtype("float"))
     com[3] = 1.0
-    triangles = TRIANGLES[:len(contact_polygon) - 2]
+    if len(contact_polygon) <= len(TRIANGLES) + 2:
+        triangles = TRIANGLES[:len(contact_polygon) - 2]
+    else:  # more vertices than expected, e.g., because of duplicates
+        triangles = tesselate_ordered_polygon(len(contact_polygon))
     for triangle in triangles:
         vertices = contact_polygon[triangle]
         com[:3] = (vertices[0] + vertices[1] + vertices[2]) / 3.0
